@@ -380,6 +380,24 @@ def r084(an, rep, rule="R08.4"):
         ok = any("CodeData" in names for names, _, _ in arms2) and bool(called_names(kf.node) & {cur.name})
         rep.add(rule, f"{kf.qual}::CodeData + delegation", ok, loc(kf.module, kf.node),
                 "nested code objects are their own key; everything else is keyed by the inner key function" if ok else "outer key function does not delegate to the inner one")
+        # the key of a nested code object is the whole value (or mentions every field that takes part in its equality)
+        cd = prog.cls("code_data::CodeData")
+        for names, body, node in arms2:
+            if "CodeData" not in names:
+                continue
+            rets = returns_of(body)
+            pk = kf.params[0]
+            for r in rets:
+                rv = r.value
+                whole = isinstance(rv, ast.Name) and rv.id == pk or (isinstance(rv, ast.Tuple) and any(isinstance(e, ast.Name) and e.id == pk for e in rv.elts))
+                used = {a.attr for a in ast.walk(rv) if isinstance(a, ast.Attribute) and isinstance(a.value, ast.Name) and a.value.id == pk} if rv is not None else set()
+                missing = [fl.name for fl in cd.fields if fl.flags.get("compare", True) is not False and fl.name not in used]
+                okc = whole or not missing
+                rep.add(rule, f"{kf.qual}::nested code object keyed by its whole value", okc, loc(kf.module, r),
+                        "the CodeData is its own key" if whole else
+                        (f"key mentions every compared field of CodeData" if okc else
+                         f"the key of a nested code object is `{norm_src(rv)}`, which leaves out {missing[:4]}{'...' if len(missing) > 4 else ''}: two different nested code objects "
+                         f"(e.g. `lambda: 1` and `lambda: 2` on one line) compare equal as constants and are merged into one entry when re-encoding"))
 
 
 def _callee_body(prog, cur, e):
